@@ -22,9 +22,14 @@ pub struct Case {
     /// bytes of ALPN protocol names that enlarge the ClientHello (0 = a plain ~230-byte hello)
     #[serde(default)]
     pub alpn_pad: usize,
+    /// the SSL request in the pre-4.1 layout: 2-byte capabilities with the SSL bit, 3-byte packet
+    /// size and (as that layout has no shorter form) this NUL-terminated user name
+    #[serde(default)]
+    pub sslreq_320_user: Option<Vec<u8>>,
 }
 
-const SSLREQ_LEN: usize = 36;
+/// length of the 4.1-layout SSL request packet (generator only; the checks measure the real one)
+const GEN_SSLREQ_LEN: usize = 36;
 
 fn gen_tls_schedule(g: &mut G<'_>) -> (Schedule, &'static str) {
     let mut s = Schedule::default();
@@ -38,12 +43,12 @@ fn gen_tls_schedule(g: &mut G<'_>) -> (Schedule, &'static str) {
     let name = match class {
         0 => {
             // cut k bytes into the SSL request
-            s.sizes = vec![g.usize_in(1, SSLREQ_LEN - 1)];
+            s.sizes = vec![g.usize_in(1, GEN_SSLREQ_LEN - 1)];
             "cut-inside-ssl-request"
         }
         1 => {
             // SSL request + first k bytes of the ClientHello in one read
-            s.sizes = vec![SSLREQ_LEN + g.usize_in(1, 240)];
+            s.sizes = vec![GEN_SSLREQ_LEN + g.usize_in(1, 240)];
             "ssl-request+k-bytes-of-client-hello"
         }
         2 => {
@@ -55,7 +60,7 @@ fn gen_tls_schedule(g: &mut G<'_>) -> (Schedule, &'static str) {
             "one-byte-reads"
         }
         4 => {
-            s.sizes = vec![SSLREQ_LEN];
+            s.sizes = vec![GEN_SSLREQ_LEN];
             "exact-ssl-request"
         }
         _ => {
@@ -83,7 +88,7 @@ impl Prop for C18 {
         "C18"
     }
     fn rule(&self) -> String {
-        "cases = configuration {TLS offered?, server asks for a client certificate?, client has a certificate?, TLS 1.2 / 1.3} x a C03-style conversation (lock-step or pipelined; 1 in 8 with one reply of 600-5000 small rows, i.e. 60-500 KB of TLS records) x a chunk schedule over the whole client stream. The client is a rustls ClientConnection embedded in the scripted transport: it writes the SSLRequest packet and the ClientHello back-to-back (as real clients do), later flights as rustls produces them (the ClientHello optionally enlarged to 4-16 KiB by a long ALPN list, as session tickets and post-quantum key shares do), the HandshakeResponse (sequence id 2) and the commands inside the TLS session. Schedule classes: cut k bytes into the SSLRequest; SSLRequest + first k bytes of the ClientHello in one read; everything in one read; 1-byte reads; exact SSLRequest; mixed. Oracle: run_on = Ok; every server byte after the greeting parses as TLS records and is accepted by rustls; the user name from the *encrypted* response and the client's DER chain (or None) reach after_authentication; the decrypted replies equal, message for message, the same conversation run in plaintext (differential); the client never hangs. TLS requested but not offered => Err and after_authentication never called. Non-trivial = some read() returned bytes from both sides of the SSLRequest / ClientHello boundary (measured from the operation log).".into()
+        "cases = configuration {TLS offered?, server asks for a client certificate?, client has a certificate?, TLS 1.2 / 1.3} x a C03-style conversation (lock-step or pipelined; 1 in 8 with one reply of 600-5000 small rows, i.e. 60-500 KB of TLS records) x a chunk schedule over the whole client stream. The client is a rustls ClientConnection embedded in the scripted transport: it writes the SSLRequest packet (4.1 layout, reserved bytes zero or random; one in eight in the pre-4.1 layout with a 16-bit mask and a user name, then half of the time followed by a pre-4.1 encrypted response) and the ClientHello back-to-back (as real clients do), later flights as rustls produces them (the ClientHello optionally enlarged to 4-16 KiB by a long ALPN list, as session tickets and post-quantum key shares do), the HandshakeResponse (sequence id 2) and the commands inside the TLS session. Schedule classes: cut k bytes into the SSLRequest; SSLRequest + first k bytes of the ClientHello in one read; everything in one read; 1-byte reads; exact SSLRequest; mixed. Oracle: run_on = Ok; every server byte after the greeting parses as TLS records and is accepted by rustls; the user name from the *encrypted* response and the client's DER chain (or None) reach after_authentication; the decrypted replies equal, message for message, the same conversation run in plaintext (differential); the client never hangs. TLS requested but not offered => Err and after_authentication never called. Non-trivial = some read() returned bytes from both sides of the SSLRequest / ClientHello boundary (measured from the operation log).".into()
     }
     fn assumptions(&self) -> Vec<String> {
         vec![
@@ -110,7 +115,16 @@ impl Prop for C18 {
             seq: 2,
             user_pad: 0,
             tail_pad: 0,
+            reserved: if g.chance(1, 5) { g.bytes(23) } else { vec![] },
         };
+        // one in eight: the request comes in the pre-4.1 layout (SSL bit in a 16-bit mask)
+        let sslreq_320_user = if g.chance(1, 8) { Some(if g.coin() { b"legacy".to_vec() } else { (0..g.usize_in(0, 8)).map(|_| 1 + g.below(255) as u8).collect() }) } else { None };
+        if sslreq_320_user.is_some() && g.coin() {
+            // ... and then the encrypted response too
+            if let HsKind::V41 { user, .. } = &conv.hs.kind {
+                conv.hs.kind = HsKind::V320 { caps: (CAP_LONG_PASSWORD | CAP_SSL) as u16, max_packet: 0xff_ffff, user: user.clone(), tail: vec![0] };
+            }
+        }
         // sometimes one reply of many small packets totalling 60-500 KB (several TLS records, more
         // than rustls buffers internally)
         if g.chance(1, 8) {
@@ -134,7 +148,7 @@ impl Prop for C18 {
             1 => g.usize_in(3600, 4200),
             _ => *g.pick(&[1000usize, 3800, 3900, 4000, 4100, 6000, 8000, 12_000, 15_000]),
         };
-        Case { conv, tls_offered: g.chance(5, 6), server_asks_client_cert: g.coin(), client_cert: g.coin(), tls13: g.coin(), alpn_pad }
+        Case { conv, tls_offered: g.chance(5, 6), server_asks_client_cert: g.coin(), client_cert: g.coin(), tls13: g.coin(), alpn_pad, sslreq_320_user }
     }
     fn exec(&self, case: &Case) -> Exec {
         let mut ex = Exec::default();
@@ -144,10 +158,23 @@ impl Prop for C18 {
         // client messages inside TLS
         let (caps, user) = match &c.hs.kind {
             HsKind::V41 { caps, user, .. } => (*caps, user.clone()),
+            HsKind::V320 { caps, user, .. } => (*caps as u32, user.clone()),
             _ => (CAP_PROTOCOL_41 | CAP_SSL, vec![]),
         };
         let mut ssl_req = Vec::new();
-        frame_into(&mut ssl_req, &ssl_request(caps, 1 << 24, 0x21), 1);
+        match &case.sslreq_320_user {
+            None => {
+                let mut p = ssl_request(caps, 1 << 24, 0x21);
+                p[9..32].copy_from_slice(&c.hs.reserved23());
+                frame_into(&mut ssl_req, &p, 1);
+            }
+            Some(u) => {
+                ex.class("ssl-request-in-3.20-layout");
+                frame_into(&mut ssl_req, &handshake320((CAP_LONG_PASSWORD | CAP_SSL) as u16, 0xff_ffff, u, &[]), 1);
+            }
+        }
+        #[allow(non_snake_case)]
+        let SSLREQ_LEN: usize = ssl_req.len();
         let mut messages = Vec::new();
         let mut m0 = Vec::new();
         frame_into(&mut m0, &c.hs.payload(), 2);
@@ -244,8 +271,10 @@ impl Prop for C18 {
         }
         // differential: same conversation in plaintext
         let mut plain = c.clone();
-        if let HsKind::V41 { caps, .. } = &mut plain.hs.kind {
-            *caps &= !CAP_SSL;
+        match &mut plain.hs.kind {
+            HsKind::V41 { caps, .. } => *caps &= !CAP_SSL,
+            HsKind::V320 { caps, .. } => *caps &= !(CAP_SSL as u16),
+            _ => {}
         }
         plain.hs.seq = 1;
         plain.sched = Schedule::all_at_once();
